@@ -43,7 +43,7 @@ THOROUGH = CONFIGS + [
 ]
 
 
-REFINE = {'quick': ('claim', 'vec_close'), 'thorough': ('claim', 'nested', 'close', 'cancel', 'vec_contend', 'vec_close')}
+REFINE = {'quick': ('vec_close',), 'thorough': ('claim', 'close', 'cancel', 'vec_close')}
 NO_INTERRUPT = ('contend', 'claim', 'nested', 'change', 'vec_contend', 'vec_change')
 
 
